@@ -328,6 +328,13 @@ func Begin(test, ext string, content []byte) {
 	mu.Lock()
 	pend[test] = &pendingCase{ext: ext, content: content}
 	mu.Unlock()
+	if os.Getenv("VERIF_RACE") != "" {
+		// under the race detector the process is halted at the first report:
+		// leave the case on disk so that the driver can attach it
+		dir := filepath.Join(OutDir(), "current")
+		os.MkdirAll(dir, 0o755)
+		os.WriteFile(filepath.Join(dir, fmt.Sprintf("%s.%d.%s", Prop(), Shard(), ext)), content, 0o644)
+	}
 }
 
 // Failf marks the current case as failing and aborts the rapid case.
